@@ -287,9 +287,15 @@ func writeGroupIni(cmd *Command, group *Group, namespace string, writer io.Write
 				}
 			}
 		default:
-			v, _ := convertToString(val, option.tag)
+			if kind == reflect.Ptr && val.IsNil() {
+				// A nil pointer has no value: write it commented out, like
+				// an empty slice or map
+				writeOption(writer, oname, kind, "", "", true, option.iniQuote)
+			} else {
+				v, _ := convertToString(val, option.tag)
 
-			writeOption(writer, oname, kind, "", v, commentOption, option.iniQuote)
+				writeOption(writer, oname, kind, "", v, commentOption, option.iniQuote)
+			}
 		}
 
 		if comments {
